@@ -10,9 +10,13 @@ use snow::resolvers::{CryptoResolver, DefaultResolver, RingResolver};
 use snow::types::Random;
 use std::panic::{catch_unwind, AssertUnwindSafe};
 
+/// deterministic byte stream (32-byte block j = draw_bytes(seed, "G", j, 32)); `k` is the position in bytes
 struct DetRng {
     seed: u64,
     k: u64,
+}
+fn stream_bytes(seed: u64, from: u64, to: u64) -> Vec<u8> {
+    (from..to).map(|p| draw_bytes(seed, "G", p / 32, 32)[(p % 32) as usize]).collect()
 }
 impl RngCore for DetRng {
     fn next_u32(&mut self) -> u32 {
@@ -22,8 +26,8 @@ impl RngCore for DetRng {
         0
     }
     fn fill_bytes(&mut self, d: &mut [u8]) {
-        d.copy_from_slice(&draw_bytes(self.seed, "G", self.k, d.len()));
-        self.k += 1;
+        d.copy_from_slice(&stream_bytes(self.seed, self.k, self.k + d.len() as u64));
+        self.k += d.len() as u64;
     }
     fn try_fill_bytes(&mut self, d: &mut [u8]) -> Result<(), rand_core::Error> {
         self.fill_bytes(d);
@@ -309,12 +313,16 @@ pub fn main(o: &Opts) -> Result<i32, String> {
                         // generated key pairs are consistent (public = Pub(private), private = the drawn bytes) and distinct
                         let mut rng = DetRng { seed, k: 0 };
                         let mut seen = std::collections::HashSet::new();
-                        for k in 0..c["draws"].as_u64().unwrap_or(4) {
+                        for _ in 0..c["draws"].as_u64().unwrap_or(4) {
+                            let before = rng.k;
                             d.generate(&mut rng);
                             n_eval += 1;
                             let sk = d.privkey().to_vec();
                             let pk = d.pubkey().to_vec();
-                            let want_sk = draw_bytes(seed, "G", k, sk.len());
+                            // the private key is what this call took from the random source (however it sliced its
+                            // requests; after a redraw, the last bytes taken)
+                            let taken = stream_bytes(seed, before, rng.k);
+                            let want_sk = if taken.len() >= sk.len() { taken[taken.len() - sk.len()..].to_vec() } else { vec![] };
                             let want_pk = crate::prims::dh_pub(da, &sk);
                             if sk != want_sk {
                                 push(&mut viols, bname, da.name(), c, "generate_uses_draw", hx(&want_sk), hx(&sk));
